@@ -68,9 +68,10 @@ def trails(n: int, edges: List[Tuple[int, int]], want: str) -> Set[Tuple[Any, ..
     return out
 
 
-def ref_cycle(n: int, edges: List[Tuple[int, int]], native: bool):
+def ref_cycle(n: int, edges: List[Tuple[int, int]], native: bool, consts=None):
     cn = Canon({})
-    E = lambda e: ("E", e)  # noqa: E731
+    consts = consts or {}
+    E = lambda e: ("c", consts[e]) if e in consts else ("E", e)  # noqa: E731
     P = lambda i: ("passed", i)  # noqa: E731
     R = lambda i: ("rank", i)  # noqa: E731
     Z = lambda i: ("root", i)  # noqa: E731
@@ -96,9 +97,10 @@ def ref_cycle(n: int, edges: List[Tuple[int, int]], native: bool):
     return arrays, cons
 
 
-def ref_path(n: int, edges: List[Tuple[int, int]]):
+def ref_path(n: int, edges: List[Tuple[int, int]], consts=None):
     cn = Canon({})
-    E = lambda e: ("E", e)  # noqa: E731
+    consts = consts or {}
+    E = lambda e: ("c", consts[e]) if e in consts else ("E", e)  # noqa: E731
     P = lambda i: ("passed", i)  # noqa: E731
     inc = incidence(n, edges)
 
@@ -122,6 +124,24 @@ def ref_path(n: int, edges: List[Tuple[int, int]]):
 
 
 XITEMS: List[Any] = []
+CONSTS: Dict[int, Dict[int, bool]] = {}
+
+
+def trails_with(n: int, edges: List[Tuple[int, int]], want: str, consts: Dict[int, bool]) -> Set[Tuple[bool, ...]]:
+    """the definition set when some edge flags are constants: the corresponding variables are free, the flags are forced"""
+    base = trails(n, edges, want)
+    if not consts:
+        return base
+    m = len(edges)
+    out = set()
+    for t in base:
+        if all(t[k] == v for k, v in consts.items()):
+            for free in itertools.product([False, True], repeat=len(consts)):
+                u = list(t)
+                for k, b in zip(sorted(consts), free):
+                    u[k] = b
+                out.add(tuple(u))
+    return out
 
 EXTRA_GRAPHS = [
     ("two double edges", 4, [(0, 1), (0, 1), (2, 3), (2, 3)]),
@@ -134,13 +154,19 @@ def run_family(repo: Repo, rep: Report, label: str, fname: str, native: bool, re
     deviating = []
     n_ok = 0
     try:
-        for gname, n, edges in GRAPHS + EXTRA_GRAPHS:
+        items = [(gname, n, edges, {}) for gname, n, edges in GRAPHS + EXTRA_GRAPHS]
+        # edge flags with Python constants among them
+        items += [(f"{gname}, edge 0 given as the constant True", n, edges, {0: True}) for gname, n, edges in GRAPHS if edges and n <= 4]
+        items += [(f"{gname}, edge {len(edges) - 1} given as the constant False", n, edges, {len(edges) - 1: False}) for gname, n, edges in GRAPHS if edges and n <= 4]
+        for gname, n, edges, consts in items:
             inst = Instance(repo, prim=native)
             act = inst.user_bools(len(edges), "E")
+            flags: Any = act if not consts else [consts.get(k, v) for k, v in enumerate(act.attrs["data"])]
             g = inst.w.graph(n, edges)
-            ret = inst.w.call(fname, inst.s, act, g, use_graph_primitive=native)
-            refs, cons = ref(n, edges)
+            ret = inst.w.call(fname, inst.s, flags, g, use_graph_primitive=native)
+            refs, cons = ref(n, edges, consts) if consts else ref(n, edges)
             same, diff = compare(inst, refs, cons)
+            CONSTS[id(inst)] = consts
             # the returned array must be the `passed` array itself
             aux = inst.aux_arrays()
             ret_ids = [v.attrs.get("id") for v in ret.attrs["data"]] if isinstance(ret, Obj) and "data" in ret.attrs else None
@@ -150,7 +176,7 @@ def run_family(repo: Repo, rep: Report, label: str, fname: str, native: bool, re
                 same, diff = False, f"the returned value is not the array of passed-vertex flags but {[LAST_MATCH.get(i) for i in (ret_ids or [])]}"
             if same and n <= 3 and ret_ids and all(i is not None for i in ret_ids):
                 XITEMS.append((f"{label}, graph '{gname}' {edges}", inst, [a for a in inst.arrays if a["user"]][0]["ids"] + ret_ids,
-                               (lambda n=n, edges=edges, want=want: trails(n, edges, want))))
+                               (lambda n=n, edges=edges, want=want, consts=consts: trails_with(n, edges, want, consts))))
             if same:
                 n_ok += 1
             else:
@@ -177,7 +203,7 @@ def run_family(repo: Repo, rep: Report, label: str, fname: str, native: bool, re
         if proj is None:
             undecided = f"{label} on graph '{gname}': deviates from the reference schema ({diff}); projection enumeration exceeded its budget"
             continue
-        spec = trails(n, edges, want)
+        spec = trails_with(n, edges, want, CONSTS.get(id(inst), {}))
         acc, rej = sorted(proj - spec), sorted(spec - proj)
         if acc or rej:
             w_ = acc[0] if acc else rej[0]
@@ -245,8 +271,8 @@ def frame_form(repo: Repo, rep: Report) -> None:
 def run(repo: Repo, rep: Report) -> None:
     rep.rule("ENC-S", "single cycle / single path post the reference degree + rank/root (or degree + line-graph connectivity) schema and return the passed-vertex array (deviations triaged by projection)")
     rep.saw(GRAPH, "_active_edges_single_cycle")
-    run_family(repo, rep, "active_edges_single_cycle(auxiliary route)", "active_edges_single_cycle", False, lambda n, e: ref_cycle(n, e, False), "cycle")
-    run_family(repo, rep, "active_edges_single_cycle(primitive route)", "active_edges_single_cycle", True, lambda n, e: ref_cycle(n, e, True), "cycle")
+    run_family(repo, rep, "active_edges_single_cycle(auxiliary route)", "active_edges_single_cycle", False, lambda n, e, c=None: ref_cycle(n, e, False, c), "cycle")
+    run_family(repo, rep, "active_edges_single_cycle(primitive route)", "active_edges_single_cycle", True, lambda n, e, c=None: ref_cycle(n, e, True, c), "cycle")
     run_family(repo, rep, "active_edges_single_path(primitive route)", "active_edges_single_path", True, ref_path, "path")
     if XITEMS and not rep.findings and not rep.undecided:
         from .encodings import cross_check
